@@ -76,5 +76,6 @@ let () =
        | _ -> print_endline "ERR")
     | [] -> ()
     | _ -> print_endline "ERR"
-    with Failure _ | Invalid_argument _ -> print_endline "ERR")
+    with Failure _ | Invalid_argument _ -> print_endline "ERR");
+    flush stdout
   done with End_of_file -> ()
